@@ -231,6 +231,20 @@ pub fn eval_whitelist(order: &[usize], with_encoding: bool, st: &mut Stats) -> R
                 (Err(e), Some(w)) => return Err(format!("{} ASCII codewords refused ({:?}) although {} is listed", k, e, SYMBOLS[w].name())),
             }
             st.count("picks_checked");
+            // the same with 2k digits (k codewords with digit pairs), all modes enabled
+            let digits = vec![b'1'; 2 * k];
+            let r = guarded(|| DataMatrixBuilder::new().with_symbol_list(l.clone()).encode(&digits)).map_err(|p| format!("encode: {}", p))?;
+            match (r, want) {
+                (Ok(dm), Some(w)) => {
+                    if bridge::ref_index(dm.size) != w {
+                        return Err(format!("{} digits ({} codewords): {:?} picked, first large enough in iteration order is {}", 2 * k, k, dm.size, SYMBOLS[w].name()));
+                    }
+                }
+                (Err(_), None) => {}
+                (Ok(dm), None) => return Err(format!("{} digits fit {:?}?", 2 * k, dm.size)),
+                (Err(e), Some(w)) => return Err(format!("{} digits ({} codewords) refused ({:?}) although {} is listed", 2 * k, k, e, SYMBOLS[w].name())),
+            }
+            st.count("picks_checked");
         }
     }
     st.count("nontrivial");
@@ -355,7 +369,7 @@ pub fn run(ctx: &Ctx) -> i32 {
     ctx.par(48, |c, w| {
         let a = c as usize;
         w.label(|| format!("white-list singles and pairs with {}", SYMBOLS[a].name()));
-        w.check(1, || wdesc(&[a], true), |st| eval_whitelist(&[a], SYMBOLS[a].data <= 204, st));
+        w.check(1, || wdesc(&[a], true), |st| eval_whitelist(&[a], SYMBOLS[a].data <= 368, st));
         for b in 0..48 {
             if b != a {
                 let enc = SYMBOLS[a].data.max(SYMBOLS[b].data) <= 64;
@@ -375,7 +389,7 @@ pub fn run(ctx: &Ctx) -> i32 {
         "rule": "48 sizes x (data/total codewords, pixel dimensions, every finder/alignment module of the region layout, size detection, interleaved blocks via the support of the EC response to every unit data vector) against \
 ISO/IEC 16022 Table 7 / ISO/IEC 21471 (R2, R4); default = the 30 ISO 16022 sizes, extended = 48; enforce_width_in / enforce_height_in for every range a..b, a..=b, a.., (a,inf), ..a, ..=a, .. with a, b in 0..=150 on both lists; \
 compositions of 2 (all) and 3 (quick: half of the pairs extended by every third filter; thorough: all) filters over a reduced bound set; all 4095 subsets of a 12-symbol set as shuffled white-lists (+ reversed), all singles and ordered pairs: membership, \
-iteration by non-decreasing capacity, and for every k in 0..=maxcap+1 the symbol picked for k ASCII codewords is the first of the iteration order that is large enough. All cases distinct; non-trivial = filter result differs from the unfiltered lists / any white-list / any size.",
+iteration by non-decreasing capacity, and for every k in 0..=maxcap+1 the symbol picked for k ASCII codewords (k bytes 0x7F in ASCII mode, and 2k digits with all modes) is the first of the iteration order that is large enough. All cases distinct; non-trivial = filter result differs from the unfiltered lists / any white-list / any size.",
         "exhaustive": true,
         "picks_checked": ctx.counter("picks_checked"),
     });
